@@ -18,10 +18,16 @@ func init() { props["C19"] = runC19 }
 // entries are looked up again just before a tick (logical 129 / 159). "relooked" entries are back-dated by 10 s,
 // looked up again (which must refresh the stamp to "now" however young the recorded stamp is) and then moved 5 s
 // forward: they are 25 s idle at the first tick and must stay (a stamp that was not refreshed would be 35 s old).
+// "dropped" entries (listeners and clusters only) are looked up, then removed by the control plane (a complete update
+// without them) and never looked up again: the name is still in the interest set, its access record is 40 s old at the
+// tick, and the sweep must withdraw it (a request without it) like any other idle name.
+// After the ticks, evicted route-configuration / endpoint names are looked up again; for every second one an update that
+// was already on its way when the name was unsubscribed arrives first: it must not bring the entry back (nobody
+// subscribes to it, it would never be updated), and the lookup must subscribe again and obtain the current value.
 
 type sweepEntry struct {
 	rt, name string
-	class    string // old | fresh | never | plain | relooked
+	class    string // old | fresh | never | plain | relooked | dropped
 }
 
 type sweepCase struct {
@@ -127,7 +133,11 @@ func runC19(c *ctx) {
 				if n == xdsresource.ReservedLdsResourceName || n == "missing.host" {
 					continue
 				}
-				sc.entries = append(sc.entries, sweepEntry{rt, n, classes[r.intn(len(classes))]})
+				cl := classes[r.intn(len(classes))]
+				if (rt == "cds" || rt == "lds") && r.chance(25) {
+					cl = "dropped"
+				}
+				sc.entries = append(sc.entries, sweepEntry{rt, n, cl})
 			}
 		}
 		// the reserved inbound listener: looked up and back-dated — it must stay
@@ -161,8 +171,37 @@ func runC19(c *ctx) {
 				sc.getStep(e.rt, e.name, 100)
 			}
 		}
+		// the control plane removes the `dropped` entries: a complete update of the type without them
+		for _, rt := range types {
+			var slots [][3]string
+			var anys []*anypb.Any
+			nd := 0
+			for _, e := range sc.entries {
+				if e.rt != rt {
+					continue
+				}
+				if e.class == "dropped" {
+					nd++
+					continue
+				}
+				st := fmt.Sprintf("%s#%d", e.name, version+1)
+				slots = append(slots, [3]string{"good", e.name, st})
+				anys = append(anys, anyStamped(rt, e.name, st))
+			}
+			if nd == 0 {
+				continue
+			}
+			version++
+			v, nonce := fmt.Sprintf("v%d", version), fmt.Sprintf("n%d", version)
+			rtc := rt
+			sc.h.step(obj{"o": "push", "rt": rt, "v": v, "nonce": nonce, "slots": slotsJSON(slots)}, func() {
+				w.feed(mkResp(urlOf(rtc), v, nonce, anys))
+			})
+			sc.h.steps[len(sc.h.steps)-1].(obj)["now"] = 100
+			c.count("dropped-by-update", nd)
+		}
 		for _, e := range sc.entries {
-			if e.class == "old" {
+			if e.class == "old" || e.class == "dropped" {
 				ok := w.m.VerifBackdate(rtOf(e.rt), e.name, 40*time.Second)
 				sc.h.steps = append(sc.h.steps, obj{"o": "backdate", "rt": e.rt, "n": e.name, "now": 60, "applied": ok})
 			}
@@ -235,27 +274,36 @@ func runC19(c *ctx) {
 		}
 	}
 	// a later lookup of an evicted name subscribes again and obtains the current value
-	for _, sc := range cases {
+	for ci, sc := range cases {
+		k := 0
 		for _, e := range sc.entries {
-			if sc.stalled {
+			if sc.stalled || k == 2 {
 				break
 			}
-			if e.class == "old" && e.name != xdsresource.ReservedLdsResourceName && e.rt != "lds" {
-				sc.getStep(e.rt, e.name, 100+30*ticks+1)
+			if e.class != "old" || (e.rt != "rds" && e.rt != "eds") {
+				continue
+			}
+			k++
+			now := 100 + 30*ticks + 1
+			ee := e
+			pushOne := func(crossed bool) {
 				version++
-				st := fmt.Sprintf("%s#%d", e.name, version)
+				st := fmt.Sprintf("%s#%d", ee.name, version)
 				v, nonce := fmt.Sprintf("v%d", version), fmt.Sprintf("n%d", version)
-				// the push must carry every subscribed name of a full type; keep it simple: merge types only
-				if e.rt == "rds" || e.rt == "eds" {
-					ee := e
-					sc.h.step(obj{"o": "push", "rt": e.rt, "v": v, "nonce": nonce, "slots": slotsJSON([][3]string{{"good", e.name, st}})}, func() {
-						sc.h.w.feed(mkResp(urlOf(ee.rt), v, nonce, []*anypb.Any{anyStamped(ee.rt, ee.name, st)}))
-					})
-					sc.h.steps[len(sc.h.steps)-1].(obj)["now"] = 100 + 30*ticks + 1
-					sc.getStep(e.rt, e.name, 100+30*ticks+1)
-				}
-				break
+				sc.h.step(obj{"o": "push", "rt": ee.rt, "v": v, "nonce": nonce, "crossed": crossed, "slots": slotsJSON([][3]string{{"good", ee.name, st}})}, func() {
+					sc.h.w.feed(mkResp(urlOf(ee.rt), v, nonce, []*anypb.Any{anyStamped(ee.rt, ee.name, st)}))
+				})
+				sc.h.steps[len(sc.h.steps)-1].(obj)["now"] = now
 			}
+			if (k+ci)%2 == 0 {
+				// an update of the name that the control plane sent before it processed the request without it
+				pushOne(true)
+				c.count("crossed-updates", 1)
+			}
+			sc.getStep(e.rt, e.name, now)
+			pushOne(false)
+			sc.getStep(e.rt, e.name, now)
+			c.count("relookups", 1)
 		}
 		ents := make([]interface{}, 0, len(sc.entries))
 		for _, e := range sc.entries {
